@@ -133,7 +133,7 @@ func runC07(r resIface, c *c07case, rng *prng.R, scratch string) {
 		msgs := []string{"ERR injected failure", "BUSY Redis is busy running a script. You can only call SCRIPT KILL or SHUTDOWN NOSAVE.",
 			"LOADING Redis is loading the dataset in memory", "OOM command not allowed when used memory > 'maxmemory'.",
 			"READONLY You can't write against a read only replica.", "ERR the target is busy, try again", "MISCONF Redis is configured to save RDB snapshots, but it is currently not able to persist on disk."}
-		k := (c.Index/6 - (c.Index/6+1)/4) % (3 * len(msgs)) // dense index over the cases that inject an error reply
+		k := (c.Index / 6 / 2) % (3 * len(msgs)) // walks all pairs over the cases that inject an error reply
 		c.KeyExist = []string{"ignore", "none", "rewrite"}[k/len(msgs)]
 		conf.Options.KeyExists = c.KeyExist
 		c.FailMsg = msgs[k%len(msgs)]
@@ -189,7 +189,22 @@ func runC07(r resIface, c *c07case, rng *prng.R, scratch string) {
 	defer sched.Stop()
 	sched.Active = tcp.OpenConns
 	tcp.Gate = sched.Gate
-	if c.Fail != "" && len(want) > 0 {
+	if c.Fail == "elem" {
+		// the failing command is one element of a key that is rebuilt element by element (threshold 1): the second of at
+		// least three, so that the batch's last reply is a success
+		cmdOf := map[string]string{"list": "rpush", "hash": "hset", "set": "sadd", "zset": "zadd"}
+		c.Fail = "err"
+		for _, cand := range rng.Perm(len(want)) {
+			w := want[cand]
+			if name, ok := cmdOf[w.val.Kind]; ok && w.val.Elements() >= 3 {
+				c.Fail, c.FailKey, c.FailMsg = "elem", w.key, "OOM command not allowed when used memory > 'maxmemory'."
+				conf.Options.BigKeyThreshold = 1
+				srv.Faults = append(srv.Faults, &miniredis.Fault{Cmd: name, Key: w.key, Nth: 2, Reply: miniredis.ErrReply(c.FailMsg)})
+				break
+			}
+		}
+	}
+	if c.Fail != "" && c.Fail != "elem" && len(want) > 0 {
 		fk := want[rng.Intn(len(want))]
 		c.FailKey = fk.key
 		if c.Fail == "busykey" {
@@ -197,7 +212,7 @@ func runC07(r resIface, c *c07case, rng *prng.R, scratch string) {
 		} else {
 			srv.Faults = append(srv.Faults, &miniredis.Fault{Cmd: "restore", Key: fk.key, Nth: 1, Reply: miniredis.ErrReply(c.FailMsg)})
 		}
-	} else {
+	} else if c.Fail != "elem" {
 		c.Fail = ""
 	}
 	if inChild {
@@ -433,6 +448,9 @@ func c07runsChild(raw json.RawMessage, scratch string) {
 			c.Fail = "err"
 			if i/6%4 == 3 {
 				c.Fail = "busykey"
+			}
+			if i/6%4 == 1 {
+				c.Fail = "elem"
 			}
 			c.Keys = 50
 		}
